@@ -147,6 +147,7 @@ type c04Plan struct {
 	Triggers  []trigger `json:"triggers,omitempty"`
 	DelayMs   int       `json:"delay_ms,omitempty"`
 	Seencheck bool      `json:"seencheck"`
+	Workers   int       `json:"workers,omitempty"` // 0 = chosen by the pair index
 }
 
 func c04Plans(r *vc.Run) []c04Plan {
@@ -172,6 +173,9 @@ func c04Plans(r *vc.Run) []c04Plan {
 		plans = append(plans, c04Plan{Kind: "graceful", Triggers: []trigger{{"arch.resp", 9, "stop"}}, Seencheck: false})
 		plans = append(plans, c04Plan{Kind: "graceful", Triggers: []trigger{{"post.recv", 4, "stop"}}, Seencheck: false})
 		plans = append(plans, c04Plan{Kind: "graceful", Triggers: []trigger{{"arch.resp", 4, "stop"}}, Seencheck: true})
+		// one worker and a backlog: the queue consumer sits in ReceiveInsert with a claimed row when the stop freezes the reactor
+		plans = append(plans, c04Plan{Kind: "graceful", Triggers: []trigger{{"arch.do", 4, "stop"}}, Seencheck: false, Workers: 1})
+		plans = append(plans, c04Plan{Kind: "graceful", Triggers: []trigger{{"fin.notified", 2, "stop"}}, Seencheck: false, Workers: 1})
 		return plans
 	}
 	for _, sck := range []bool{false, true} {
@@ -186,6 +190,7 @@ func c04Plans(r *vc.Run) []c04Plan {
 		}
 		for _, t := range [][]trigger{{{"arch.do", 3, "stop"}}, {{"arch.do", 12, "stop"}}, {{"pre.forward", 4, "stop"}}, {{"post.recv", 5, "stop"}}, {{"fin.notified", 2, "stop"}}, {{"fin.notified", 9, "stop"}}, {{"lq.delete.committed", 1, "stop"}}, {{"arch.do", 2, "pause"}, {"pause.ack", 2, "stop"}}} {
 			plans = append(plans, c04Plan{Kind: "graceful", Triggers: t, Seencheck: sck})
+			plans = append(plans, c04Plan{Kind: "graceful", Triggers: t, Seencheck: sck, Workers: 1})
 		}
 	}
 	return plans
@@ -222,6 +227,9 @@ func c04(r *vc.Run) int {
 		org.mu.Unlock()
 		dir := filepath.Join(r.Scratch, fmt.Sprintf("c04-%d", i))
 		cfg := pipeConfig{Workers: 2 + i%3, MaxConcurrentAssets: 2, MaxHops: 1, MaxRetry: 1, MaxRedirect: 5, WARCPoolSize: 1 + i%2, DisableSeencheck: !plan.Seencheck}
+		if plan.Workers > 0 {
+			cfg.Workers = plan.Workers
+		}
 		sc1 := c04Scenario{Seed: r.Seed, Index: i, Cfg: cfg, InputSeeds: site.Hubs, Triggers: plan.Triggers, Run: 1}
 		// ---- run 1 ----
 		var res1 *childResult
